@@ -183,7 +183,7 @@ theorem det_kron {Ms : List (Op R)} (hsq : ∀ M ∈ Ms, M.rows = M.cols) (hpos 
       = (Ms.map (fun M => detN M.rows M.den.f ^ ((Ms.map (·.cols)).prod / M.cols))).prod := by
   rw [Op.den, forceV_f]
   simp only [Op.rows]
-  have h := detN_kronDen (Ms.map (fun M => (⟨M.rows, M.cols, M.den.f, fun _ m => m⟩ : FacAct R)))
+  have h := detN_kronDen (Ms.map (fun M => (⟨M.rows, M.cols, M.den.f, fun _ m => MatV.of m⟩ : FacAct R)))
     (by intro F hF; obtain ⟨M, hM, rfl⟩ := List.mem_map.mp hF; exact hsq M hM)
     (by intro F hF; obtain ⟨M, hM, rfl⟩ := List.mem_map.mp hF; exact hpos M hM)
   simp only [List.map_map, Function.comp_def] at h
@@ -191,7 +191,7 @@ theorem det_kron {Ms : List (Op R)} (hsq : ∀ M ∈ Ms, M.rows = M.cols) (hpos 
 
 theorem bdiag_dims : ∀ (Ms : List (Op R)) (mults : List Nat),
     dotSum (Ms.map (·.rows)) mults
-      = (((Ms.map (fun M => (⟨M.rows, M.cols, M.den.f, fun _ m => m⟩ : FacAct R))).zip mults).map
+      = (((Ms.map (fun M => (⟨M.rows, M.cols, M.den.f, fun _ m => MatV.of m⟩ : FacAct R))).zip mults).map
           (fun q => q.2 * q.1.r)).sum
   | [], _ => by simp [dotSum]
   | _ :: _, [] => by simp [dotSum]
@@ -202,7 +202,7 @@ theorem bdiag_dims : ∀ (Ms : List (Op R)) (mults : List Nat),
     rw [Nat.mul_comm]
 
 theorem bdiag_pows (g : Op R → R) : ∀ (Ms : List (Op R)) (mults : List Nat),
-    (((Ms.map (fun M => (⟨M.rows, M.cols, M.den.f, fun _ m => m⟩ : FacAct R))).zip mults).map
+    (((Ms.map (fun M => (⟨M.rows, M.cols, M.den.f, fun _ m => MatV.of m⟩ : FacAct R))).zip mults).map
         (fun q => detN q.1.r q.1.a ^ q.2))
       = List.zipWith (fun v m => v ^ m) (Ms.map (fun M => detN M.rows M.den.f)) mults
   | [], _ => by simp
